@@ -334,11 +334,38 @@ def gen_ringend(r, meth):
     return "/".join(blocks), {"size=ring-end", "ring-end%+d" % delta, "blocks=%d" % len(blocks)}, produced
 
 
+def gen_flat(r, meth):
+    """a block whose code table is FLAT – the symbols 0 .. 2^k-1 all with length k, exactly 2^k codes transmitted – so that the
+    temporary table that transmits it has ONE code (its 'single code' form) while the code table has many; alone, and after /
+    before an ordinary block (the temporary tree of the previous block must not survive)"""
+    k = r.choice([1, 2, 3, 4, 4, 5, 6, 7, 8, 8])
+    syms = list(range(1 << k))
+    r.shuffle(syms)
+    cmds = ["L%02x" % v for v in syms] + ["L%02x" % r.randrange(1 << k) for _ in range(r.choice([0, 5, 60]))]
+    temp_txt = "s%d" % tok_sym(str(k))
+    code_txt = "n%d:%s" % (1 << k, ".".join([str(k)] * (1 << k)))
+    off_txt = "s%d" % r.randrange(FMT[meth][2])
+    flat = "%s;%s;%s;%s" % (temp_txt, code_txt, off_txt, ",".join(cmds))
+    produced = len(cmds)
+    blocks = []
+    if r.random() < 0.6:
+        c0, produced0 = gen_cmds(r, meth, r.choice([5, 40]), 0, "mixed")
+        blocks.append(gen_block(r, meth, c0, ("huff", r.choice(STYLES), "huff")))
+        produced += produced0
+    blocks.append(flat)
+    if r.random() < 0.5:
+        c1, produced = gen_cmds(r, meth, r.choice([5, 40]), produced, "mixed")
+        blocks.append(gen_block(r, meth, c1, (r.choice(STYLES), r.choice(STYLES), r.choice(STYLES))))
+    return "/".join(blocks), {"size=flat", "temp-table=single+code-table=flat%d" % k, "blocks=%d" % len(blocks)}, produced
+
+
 def gen_stream(r, meth, size_class="small"):
     """returns (description string, tags)"""
     tags = set()
     if size_class == "ringend":
         return gen_ringend(r, meth)
+    if size_class == "flat":
+        return gen_flat(r, meth)
     if size_class == "small":
         nblocks = r.choice([1, 1, 2, 3, 5])
         sizes = [r.choice([0, 1, 2, 3, 8, 30, 200]) for _ in range(nblocks)]
